@@ -143,8 +143,14 @@ def from_bits(b):
     return struct.unpack("<d", struct.pack("<Q", b))[0]
 
 
-def canon(v):
+class TooDeep(Exception):
+    """a container nested deeper than any generated literal: self-containing"""
+
+
+def canon(v, depth=0):
     """canonical comparable form of a model value"""
+    if depth > 40:
+        raise TooDeep()
     if v is None:
         return ("null",)
     if isinstance(v, bool):
@@ -160,9 +166,9 @@ def canon(v):
     if isinstance(v, Byte):
         return ("b", v.n)
     if isinstance(v, Arr):
-        return ("a", tuple(canon(x) for x in v.items))
+        return ("a", tuple(canon(x, depth + 1) for x in v.items))
     if isinstance(v, Map):
-        return ("m", tuple(sorted(((canon(k), canon(x)) for k, x in v.pairs), key=repr)))
+        return ("m", tuple(sorted(((canon(k, depth + 1), canon(x, depth + 1)) for k, x in v.pairs), key=repr)))
     if isinstance(v, Closure):
         return ("fn",)
     if isinstance(v, Builtin):
